@@ -543,3 +543,62 @@ Example C14_tr_subst_line_runs :
 Proof.
   do 8 (split; [vm_compute; reflexivity|]). exact (TrSubst.find_byte1_wf16 97).
 Qed.
+
+(* ---- the argument handling of ec_substitute on the C text (coq/TrSubstArgs.v): WHERE `s` STANDS when the loop above asks
+   strchr(s, 'g').  The three statements   pat = re_read(&s);  if (pat && pat[0]) ex_kwdset(pat, +1);
+   if (pat && *s) { s--; rep = re_read(&s); }   (TrSubstArgs.ea_pat, ea_kwd, ea_rep; ea_shape: they ARE statements 5..7 of
+   the translated ec_substitute) are run with the translated re_read on the translated sbuf.c (C14_tr_re_read_heap) and an
+   oracle for ex_kwdset that writes only its own globals (kblocks).  For EVERY NUL-free argument string (delimiter below 128,
+   at most 5*10^8 bytes) the outcome is SubstDefs.subst_args:
+     - empty argument: nothing read, `s` untouched;
+     - <d>pattern with nothing behind a closing delimiter: pat = the model's pattern text, rep == NULL, `s` at the terminator;
+     - <d>pattern<d>replacement...: pat and rep hold the model's texts and `s` points to the offset o2 with
+       skipn o2 arg = the third component of subst_args = the text BEHIND the closing delimiter of the replacement (the
+       flags) -- so has_g flags in C14_tr_subst_line is C14_gflag_*'s setup_g: a g inside the replacement is never seen
+       (seeded/C14h reads the flag between the two re_read calls: ea_shape and es_shape no longer hold).
+   The second re_read starts at the closing delimiter of the pattern (s--): arg[o1 - 1] is the delimiter because the first scan
+   stopped there (TrRset.rr_stop_at).  Blocks of the entry other than `s`, `pat` and ex_kwdset's globals are unchanged. *)
+From NV Require TrSubstArgs.
+Theorem C14_tr_subst_args : forall ext m0 ba bsp bp8 kblocks d fuel a0 a1 a2 a3 a4 a5 a6 a7 a11 a12 a13 a14,
+  nth_error m0 bsp = Some [CLite.VPtr ba 0] -> nth_error m0 bp8 = Some [CLite.VInt 0] ->
+  bsp <> bp8 /\ ba <> bsp /\ ba <> bp8 ->
+  ~ In ba kblocks /\ ~ In bsp kblocks /\ ~ In bp8 kblocks /\ Forall (fun b => (b < length m0)%nat) kblocks ->
+  (forall args m, exists v m', ext GenCFuncs.X_ex_kwdset args m = CLite.Ok (v, m') /\ length m' = length m /\
+                    forall b, ~ In b kblocks -> nth_error m' b = nth_error m b) ->
+  forall arg : bytes, CLiteProps.str_at m0 ba arg -> nonul arg -> nthb arg 0 < 128 ->
+  (length arg <= TrRsetSbuf.RR_BOUND)%nat -> (length arg < fuel)%nat ->
+  let st r m := CLite.mkst [a0; a1; a2; a3; a4; a5; a6; a7; CLite.VPtr bp8 0; r; CLite.VPtr bsp 0; a11; a12; a13; a14] m in
+  exists rv m',
+    CLite.exec (CLiteExt.callx ext GenCFuncs.cprog fuel (S (S (S (S d))))) fuel
+      (CLite.SSeq TrSubstArgs.ea_pat (CLite.SSeq TrSubstArgs.ea_kwd TrSubstArgs.ea_rep)) (st (CLite.VInt 0) m0) = CLite.ONormal (st rv m') /\
+    CLiteProps.str_at m' ba arg /\ (length m0 <= length m')%nat /\
+    (forall b, (b < length m0)%nat -> b <> bsp -> b <> bp8 -> ~ In b kblocks -> nth_error m' b = nth_error m0 b) /\
+    match subst_args arg with
+    | (None, _, _) => rv = CLite.VInt 0 /\ nth_error m' bp8 = Some [CLite.VInt 0] /\ nth_error m' bsp = Some [CLite.VPtr ba 0]
+    | (Some pat, None, _) =>
+        rv = CLite.VInt 0 /\ nth_error m' bsp = Some [CLite.VPtr ba (Z.of_nat (length arg))] /\
+        exists bpat tail, nth_error m' bp8 = Some [CLite.VPtr bpat 0] /\ nth_error m' bpat = Some (map TrRset.cell pat ++ CLite.VInt 0 :: tail)
+    | (Some pat, Some rep, flags) =>
+        exists o2 bpat tail brep tail',
+          nth_error m' bsp = Some [CLite.VPtr ba (Z.of_nat o2)] /\ (o2 <= length arg)%nat /\ skipn o2 arg = flags /\
+          nth_error m' bp8 = Some [CLite.VPtr bpat 0] /\ nth_error m' bpat = Some (map TrRset.cell pat ++ CLite.VInt 0 :: tail) /\
+          rv = CLite.VPtr brep 0 /\ nth_error m' brep = Some (map TrRset.cell rep ++ CLite.VInt 0 :: tail')
+    end.
+Proof. exact TrSubstArgs.subst_args_ok. Qed.
+Print Assumptions C14_tr_subst_args.
+
+Theorem C14_tr_args_are_c_text :
+  TrSubstArgs.nth_seq 5 (CLite.fn_body GenCFuncs.cf_ec_substitute) = TrSubstArgs.ea_pat /\
+  TrSubstArgs.nth_seq 6 (CLite.fn_body GenCFuncs.cf_ec_substitute) = TrSubstArgs.ea_kwd /\
+  TrSubstArgs.nth_seq 7 (CLite.fn_body GenCFuncs.cf_ec_substitute) = TrSubstArgs.ea_rep.
+Proof. exact TrSubstArgs.ea_shape. Qed.
+Print Assumptions C14_tr_args_are_c_text.
+
+(* what lbuf_edit is handed after the loop: sbuf_buf(r) terminates the text inside the allocation and returns the start of
+   the data block, which holds the cells of the new line followed by the terminator (TrSbuf.tr_sbuf_buf under the invariant
+   of C14_tr_subst_line's buffer) *)
+Theorem C14_tr_buf_handed_over : forall m p cs d fuel, TrSubst.sb_inv m p cs ->
+  exists b m' rest, CLite.callf GenCFuncs.cprog fuel (S (S d)) GenCFuncs.F_sbuf_buf [CLite.VPtr p 0] m = CLite.Ok (CLite.VPtr b 0, m') /\
+    nth_error m' b = Some (map CLite.VInt cs ++ CLite.VInt 0 :: rest) /\ TrSbuf.sbuf_step m m' p.
+Proof. exact TrSubst.sb_buf. Qed.
+Print Assumptions C14_tr_buf_handed_over.
